@@ -48,22 +48,22 @@ func declName(n string) string {
 
 // ---- generic walkers
 
-func walkExpr(e *E, fe func(*E)) {
+func walkExpr(e *E, fs func(*S), fe func(*E)) {
 	if e == nil {
 		return
 	}
 	fe(e)
 	for _, x := range []*E{e.L, e.R, e.X, e.I, e.Lo, e.Hi} {
-		walkExpr(x, fe)
+		walkExpr(x, fs, fe)
 	}
 	for _, x := range e.Args {
-		walkExpr(x, fe)
+		walkExpr(x, fs, fe)
 	}
 	for _, x := range e.Keys {
-		walkExpr(x, fe)
+		walkExpr(x, fs, fe)
 	}
 	if e.Lit != nil {
-		walkStmts(e.Lit.Body, func(*S) {}, fe)
+		walkStmts(e.Lit.Body, fs, fe)
 		for _, t := range e.Lit.PTypes {
 			fe(&E{K: "type", Ty: t})
 		}
@@ -80,13 +80,13 @@ func walkStmts(ss []*S, fs func(*S), fe func(*E)) {
 		}
 		fs(s)
 		for _, x := range s.Exprs {
-			walkExpr(x, fe)
+			walkExpr(x, fs, fe)
 		}
 		for _, x := range s.Lhs {
-			walkExpr(x, fe)
+			walkExpr(x, fs, fe)
 		}
 		for _, x := range []*E{s.E, s.Cond, s.X, s.Tag, s.M, s.Key, s.Dst} {
-			walkExpr(x, fe)
+			walkExpr(x, fs, fe)
 		}
 		if s.DeclTy != nil {
 			fe(&E{K: "type", Ty: s.DeclTy})
@@ -103,7 +103,7 @@ func walkStmts(ss []*S, fs func(*S), fe func(*E)) {
 		walkStmts(s.Def, fs, fe)
 		for _, c := range s.Cases {
 			for _, x := range c.Vals {
-				walkExpr(x, fe)
+				walkExpr(x, fs, fe)
 			}
 			walkStmts(c.Body, fs, fe)
 		}
